@@ -44,6 +44,7 @@ def Ante.toExpr (eAnd eOr : Elem) : Ante → Expr
 
 /-- what an antecedent is evaluated against -/
 structure DegCtx (α : Type) where
+  hasTerms : String → Bool                      -- truth value of the variable object: `len(variable.terms) != 0`
   enabled : String → Bool                       -- `variable.enabled`
   isOutput : String → Bool                      -- `OutputVariable` (else `InputVariable`)
   membership : String → String → X α            -- input variable, term ↦ `term.membership(variable.value)`
